@@ -1,6 +1,7 @@
 """C03 - CDDA tracks tile the bin file exactly at the cue sheet's index positions (fault-free arm, weakest fit)."""
 from __future__ import annotations
 
+import os
 import random
 
 from ..core import RunResult, digest_of, jhash, tree_digest, weighted
@@ -78,7 +79,8 @@ def gen_cdda_model(rng: random.Random, *, titles: str = "safe") -> dict:
     last = C.first_sector(tracks[-1])
     tail = weighted(rng, [(0, 2), (1, 1), (2, 1), (3, 1), (4, 1), (5, 1), (2351, 1), (2352, 2), (2353, 1), (rng.randint(0, 4 * 2352), 4)])
     # the FILE entry is a path relative to the cue sheet; keywords are case-insensitive
-    bin_name = weighted(rng, [("disc.bin", 6), ("DISC.BIN", 1), ("audio/disc.bin", 1), ("rips/cd 1/disc.img", 1), ("my disc (1).bin", 1)])
+    bin_name = weighted(rng, [("disc.bin", 6), ("DISC.BIN", 1), ("audio/disc.bin", 1), ("rips/cd 1/disc.img", 1), ("my disc (1).bin", 1),
+                              ("../disc.bin", 1)])
     kw_case = weighted(rng, [(None, 6), ("lower", 1), ("title", 1)])
     return {"bin_name": bin_name, "kw_case": kw_case, "bin_key": "cd%d" % rng.getrandbits(30), "bin_len": last * C.SECTOR + tail, "tracks": tracks}
 
@@ -192,9 +194,9 @@ def run(sc: dict) -> RunResult:
         res.probes["first_track_not_at_zero"] += 1
     if n - C.first_sector(model["tracks"][-1]) * C.SECTOR < 4:
         res.probes["empty_last_track"] += 1
-    vfs = VirtualFS({"/vfs/disc.cue": cue, "/vfs/" + model["bin_name"]: data})
+    vfs = VirtualFS({"/vfs/sheets/disc.cue": cue, "/vfs/sheets/" + model["bin_name"]: data})
     with Sandbox("c03") as sb, knobs(block), vfs.installed(), StepClock(30_000_000) as clk:
-        image, r0 = tool.open_image("/vfs/disc.cue")
+        image, r0 = tool.open_image("/vfs/sheets/disc.cue")
         if image is None:
             res.add(PROP, "open_failed", "determine_image_type raised %s: %s [%s]" % (r0.exc, r0.exc_msg, r0.exc_tb), exc=r0.exc)
             er = tool.ExportResult()
@@ -223,7 +225,7 @@ def run(sc: dict) -> RunResult:
     out_digest = tree_digest(er.tree)
     if sc.get("cli") and not res.violations:
         res.probes["cli_crosscheck"] += 1
-        rc, out, tree = tool.cli_export({"disc.cue": cue, model["bin_name"]: data}, "disc.cue")
+        rc, out, tree = tool.cli_export({"sheets/disc.cue": cue, os.path.normpath("sheets/" + model["bin_name"]): data}, "sheets/disc.cue")
         er2 = tool.ExportResult(stdout=out, reported=[l[9:] for l in out.split("\n") if l.startswith("Exported ")], tree=tree)
         check_tracks(res, PROP, model, er2, ctx="[real CLI] ")
     res.digest = digest_of([s.event_digest() for s in sfs], er.stdout, out_digest, [v.cls for v in res.violations])
